@@ -458,6 +458,10 @@ impl Buffer {
         Arc::try_unwrap(self.data)
             .map(|bytes| unsafe {
                 let ptr = bytes.ptr().as_ptr().cast();
+                // The returned Vec is not tracked by any memory pool: release the
+                // reservation, which would otherwise be leaked together with `bytes`
+                #[cfg(feature = "pool")]
+                drop(bytes.reservation.lock().unwrap().take());
                 std::mem::forget(bytes);
                 // Safety
                 // Verified that bytes layout matches that of Vec
